@@ -751,6 +751,9 @@ func genericRules(w *World, r *Report, prop string) {
 				if table == nil {
 					return
 				}
+				if mi, ok := key.(*ssa.MakeInterface); ok {
+					key = mi.X
+				}
 				if b, ok := key.Type().Underlying().(*types.Basic); !ok || b.Kind() != types.String {
 					return
 				}
@@ -784,6 +787,16 @@ func genericRules(w *World, r *Report, prop string) {
 								what = "-"
 							}
 						}
+					case *ssa.Alloc:
+						if pt, ok := y.Type().(*types.Pointer); ok && what == "" && isMapLike(pt.Elem()) {
+							what = "local table " + y.Comment
+						}
+					case *ssa.FreeVar:
+						if al, ok := fam.canon(y).(*ssa.Alloc); ok && what == "" {
+							if pt, ok := al.Type().(*types.Pointer); ok && isMapLike(pt.Elem()) {
+								what = "local table " + al.Comment
+							}
+						}
 					case *ssa.MakeMap:
 						if what == "" {
 							what = "local map"
@@ -807,6 +820,27 @@ func genericRules(w *World, r *Report, prop string) {
 				}
 				roles, hasID := w.keyRoles(key)
 				nG11++
+				// a key that joins two names with a separator that may occur inside a name is as good as a bare name
+				if !hasID {
+					for _, ck := range allComposites(fn) {
+						if len(ck.Ambig) == 0 {
+							continue
+						}
+						derived := ck.Value() == key
+						if !derived {
+							for _, x := range backSlice(key, SliceOpts{MaxDepth: 4, NoAggregates: true}) {
+								if x == ck.Value() {
+									derived = true
+								}
+							}
+						}
+						if derived {
+							k++
+							r.Fail(prop+"-G11", fmt.Sprintf("%s | %s keyed by an ambiguous composite of names #%d", host, what, k), in.Pos(), "the key of this table joins two names with a separator that can occur inside a Milvus name ('_' or nothing): (a, b_c) and (a_b, c) share the entry, so what was decided or recorded for one object is used for the other")
+							return
+						}
+					}
+				}
 				if !roles["collection"] || roles["database"] || hasID {
 					return
 				}
